@@ -61,7 +61,20 @@ def main():
         groups.setdefault(n.split("-")[0], []).append(n)
 
     def run_group(ns):
-        return [run_one(n) for n in ns]
+        out = [run_one(n) for n in ns]
+        # the translated model parts of this property were regenerated from mutated worktrees: re-translate them
+        # from the unchanged /repo so that nothing stale is left behind
+        prop = ns[0].split("-")[0]
+        code = (
+            "import importlib\nfrom harness import common\n"
+            f"m = importlib.import_module('harness.{prop.lower()}')\n"
+            "ctx = common.Ctx('%s', 'quick', 0)\n" % prop
+            + "hasattr(m, 'generate') and m.generate(ctx)\nctx.cleanup()\n"
+        )
+        env = dict(os.environ, PYTHONPATH=str(HERE), PYTHONDONTWRITEBYTECODE="1")
+        env.pop("VERIF_REPO", None)
+        subprocess.run(["/venv/bin/python", "-W", "ignore", "-c", code], cwd=HERE, env=env, capture_output=True)
+        return out
 
     with ThreadPoolExecutor(max_workers=int(os.environ.get("SEED_JOBS", "3"))) as ex:
         for rs in ex.map(run_group, groups.values()):
